@@ -17,10 +17,23 @@ ID_SCHEMES = {
 }
 
 
+PHYS_R = [1000, 47, 2200000, 330, 10000, "47/10", 100000, 68]
+PHYS_C = ["1/1000000000000", "1/10000000", "47/10000000", "22/100000000000", "1/1000", "33/1000000000", "1/100000", "1/1000000000"]
+PHYS_L = ["1/1000000000", "1/1000", "47/10000000", "1/10", "22/1000000", "1/100000", "1", "33/100000000"]
+
+
 def comp(kind, cid, a, b_, k, pal="real"):
     v = sp.P_REAL[k]
     if pal == "dec":
         v = F(sp.P_DEC[k])
+    if pal == "phys":
+        # component values in SI units as they occur on a bench: ohms to megohms, picofarads to millifarads, nanohenries to henries
+        if kind == "R":
+            return ["resistor", cid, [a, b_], {"R": F(PHYS_R[k % 8])}]
+        if kind == "C":
+            return ["capacitor", cid, [a, b_], {"C": F(PHYS_C[k % 8])}]
+        if kind == "L":
+            return ["inductance", cid, [a, b_], {"L": F(PHYS_L[k % 8])}]
     if kind == "R":
         return ["resistor", cid, [a, b_], {"R": v}]
     if kind == "C":
